@@ -610,18 +610,21 @@ C03Descs ==
      {[cfg |-> "both", shape |-> sh, verb |-> v, name |-> "B" \o sh \o VerbCamel(v)] : sh \in LitShapes, v \in RealVerbs}
   \cup {[cfg |-> "both", shape |-> "var", verb |-> "GET", name |-> "Bvar"], [cfg |-> "both", shape |-> "var_var", verb |-> "PUT", name |-> "Bvarvar"]}
   \cup {[cfg |-> "path", shape |-> sh, verb |-> "", name |-> "P" \o sh] : sh \in LitShapes}
+  \* the usual REST layout: RPCs of one service that share a path template and differ by verb only
+  \cup {[cfg |-> "shared", shape |-> sh, verb |-> v, name |-> "R" \o sh \o VerbCamel(v)] : sh \in {"lit", "lit_var"}, v \in RealVerbs}
   \cup {[cfg |-> "verb", shape |-> "", verb |-> v, name |-> n \o "Via" \o VerbCamel(v)] : n \in NameShapes, v \in RealVerbs}
   \cup {[cfg |-> "absent", shape |-> "", verb |-> "", name |-> n] : n \in NameShapes}
 C03Req(P, d) ==
   LET v == IF d.verb = "" THEN "POST" ELSE d.verb
-      vars == IF d.cfg \in {"both", "path"} THEN ShapeVars(d.shape) ELSE <<>>
+      vars == IF d.cfg \in {"both", "path", "shared"} THEN ShapeVars(d.shape) ELSE <<>>
       pf == [i \in 1..Len(vars) |-> F(vars[i], vars[i], i, "string", "one")]
       q  == <<Ann(F("q", "q", Len(vars) + 1, "string", "one"), "query", TRUE)>>
       b  == IF v \in {"POST", "PUT", "PATCH"} THEN <<F("d", "d", Len(vars) + 2, "string", "one")>> ELSE <<>>
   IN Msg("Rq" \o d.name, FN(P, "Rq" \o d.name), pf \o q \o b)
 C03Method(P, d) ==
   Method(d.name, FN(P, "Rq" \o d.name), FN(P, "Out"), d.cfg # "absent",
-         IF d.cfg \in {"both", "path"} THEN ShapeParts(d.shape, d.name) ELSE NoParts, d.verb)
+         IF d.cfg \in {"both", "path"} THEN ShapeParts(d.shape, d.name)
+         ELSE IF d.cfg = "shared" THEN ShapeParts(d.shape, "res") ELSE NoParts, d.verb)
 C03Case(P, base, pkgDiff) ==
   LET ds == SetToSeq(C03Descs)
       pkg == IF pkgDiff THEN Pkg(P) ELSE P
@@ -806,7 +809,7 @@ C18Case(P, sh) ==
 (* top-level message.                                                      *)
 (***************************************************************************)
 Constructs == {"kinds", "wkt", "wkt2", "int64num", "enumcustom", "enumnum", "nullable", "empty", "ts", "bytes", "oneof", "oneofflat", "flatten",
-               "flattenprefix", "unwraplist", "unwrapmap", "multiword", "int64rep", "plain", "required", "oneofplus", "explicit", "flattentwice", "bytesrules", "oneofscalars", "unwrapmapplus", "unwrapsiblings", "unwrapnames", "unwraprootname", "flattennullable"}
+               "flattenprefix", "unwraplist", "unwrapmap", "multiword", "int64rep", "plain", "required", "oneofplus", "explicit", "flattentwice", "bytesrules", "oneofscalars", "unwrapmapplus", "unwrapsiblings", "unwrapnames", "unwraprootname", "flattennullable", "oneofmultiword"}
 \* the annotated message A (and the helper messages it needs)
 ConstructMsgs(P, c) ==
   LET a(fs) == Msg("A", FN(P, "A"), fs)
@@ -826,6 +829,10 @@ ConstructMsgs(P, c) ==
                                    Ann(F("hs", "hs", 4, "bytes", "rep"), "bytes", "HEX"), Ann(F("us", "us", 5, "bytes", "rep"), "bytes", "BASE64URL")>>)>>
        [] c = "oneof"      -> <<MsgO("A", FN(P, "A"), <<F("k", "k", 1, "string", "one"), InOneof(FRef("a", "a", 2, "message", "one", ch), "o"),
                                      InOneof(Ann(FRef("b", "b", 3, "message", "one", c2), "oneofValue", "bee"), "o")>>, <<Oneof("o", TRUE, "type", FALSE)>>)>>
+       \* a discriminated oneof, not flattened, whose members' JSON names differ from their proto names
+       [] c = "oneofmultiword" -> <<MsgO("A", FN(P, "A"), <<F("k", "k", 1, "string", "one"), InOneof(FRef("credit_card", "creditCard", 2, "message", "one", ch), "o"),
+                                     InOneof(F("voucher_code", "voucherCode", 3, "string", "one"), "o"),
+                                     InOneof(FRef("bank_transfer", "bankTransfer", 4, "message", "one", c2), "o")>>, <<Oneof("o", TRUE, "kind", FALSE)>>)>>
        [] c = "oneofflat"  -> <<MsgO("A", FN(P, "A"), <<F("k", "k", 1, "string", "one"), InOneof(FRef("a", "a", 2, "message", "one", ch), "o"),
                                      InOneof(FRef("b", "b", 3, "message", "one", c2), "o")>>, <<Oneof("o", TRUE, "type", TRUE)>>)>>
        [] c = "flatten"    -> <<a(<<F("k", "k", 1, "string", "one"), Ann(FRef("c", "c", 2, "message", "one", ch), "flatten", TRUE)>>)>>
@@ -898,7 +905,7 @@ ConstructMsgs(P, c) ==
        [] c = "plain"      -> <<a(<<F("s", "s", 1, "string", "one"), F("n", "n", 2, "int64", "one"), FRef("c", "c", 3, "message", "one", ch),
                                    FRef("e", "e", 4, "enum", "one", FN(P, "P")), F("b", "b", 5, "bytes", "one"), F("f", "f", 6, "double", "one"),
                                    FMap("m", "m", 7, "int32", "string", ""), F("r", "r", 8, "bool", "rep")>>)>>
-Contexts == {"top", "child", "rep", "mapv", "oneofvar", "flatchild", "discvar", "unwrapsib"}
+Contexts == {"top", "child", "rep", "mapv", "oneofvar", "flatchild", "discvar", "unwrapsib", "nesteddecl", "nesteddecl_flat", "nesteddecl_top"}
 \* the top-level message W holding A in a context (for "top", the RPC message is A itself)
 ContextMsgs(P, cx) ==
   LET an == FN(P, "A")
@@ -912,16 +919,30 @@ ContextMsgs(P, cx) ==
        [] cx = "flatchild" -> <<w(<<F("zz", "zz", 1, "string", "one"), Ann(FRef("a", "a", 2, "message", "one", an), "flatten", TRUE)>>)>>
        [] cx = "discvar"   -> <<MsgO("W", FN(P, "W"), <<InOneof(FRef("a", "a", 1, "message", "one", an), "o"), InOneof(FRef("b", "b", 2, "message", "one", FN(P, "Child2")), "o")>>,
                                       <<Oneof("o", TRUE, "kind", FALSE)>>)>>
+       [] cx \in {"nesteddecl", "nesteddecl_flat", "nesteddecl_top"} -> <<>>   \* (built in C05Case: A is DECLARED inside W)
        [] cx = "unwrapsib" -> <<Msg("UL", FN(P, "UL"), <<Ann(FRef("vals", "vals", 1, "message", "rep", FN(P, "Child")), "unwrap", TRUE)>>),
                                 w(<<FMap("by_key", "byKey", 1, "string", "message", FN(P, "UL")), FRef("a", "a", 2, "message", "one", an)>>)>>
+\* the construct's messages in their context; in the "nesteddecl" contexts the subject message A is a nested
+\* declaration of W, a message that carries none of A's annotations itself (W.a holds it, flattened or not)
+C05Msgs(P, c, cx) ==
+  IF cx \notin {"nesteddecl", "nesteddecl_flat", "nesteddecl_top"} THEN ConstructMsgs(P, c) \o ContextMsgs(P, cx)
+  ELSE LET cm == ConstructMsgs(P, c)
+           nfull == FN(P, "W") \o ".A"
+           aMsg == CHOOSE m \in Range(cm) : m.name = "A"
+           others == SelectSeq(cm, LAMBDA m : m.name # "A")
+           ref == FRef("a", "a", 2, "message", "one", nfull)
+       IN others \o <<MsgN("W", FN(P, "W"),
+                           <<F("zz", "zz", 1, "string", "one")>> \o
+                           (IF cx = "nesteddecl_top" THEN <<>> ELSE <<IF cx = "nesteddecl_flat" THEN Ann(ref, "flatten", TRUE) ELSE ref>>),
+                           <<[aMsg EXCEPT !.full = nfull]>>)>>
 C05Case(P, c, cx) ==
-  LET top == IF cx = "top" THEN FN(P, "A") ELSE FN(P, "W")
+  LET top == IF cx = "top" THEN FN(P, "A") ELSE IF cx = "nesteddecl_top" THEN FN(P, "W") \o ".A" ELSE FN(P, "W")
   \* (a second service, declared first, reaches the same message: the document of the service under test
   \* is then not the first one the OpenAPI plugin writes in the run, and must be complete all the same)
   IN Schema(<<File(P \o "/svc.proto", Pkg(P), GoPkg(P), TRUE, <<>>,
                    <<Service("Early", TRUE, Parts(TRUE, <<Lit("early")>>, FALSE), <<Method("Peek", top, top, TRUE, Parts(TRUE, <<Lit("peek")>>, FALSE), "POST")>>),
                      Svc(P, <<Method("Do", top, top, TRUE, Parts(TRUE, <<Lit("do")>>, FALSE), "POST")>>)>>,
-                   <<Child(P), Child2(P)>> \o ConstructMsgs(P, c) \o ContextMsgs(P, cx), <<EnumE, EnumPlain>>)>>)
+                   <<Child(P), Child2(P)>> \o C05Msgs(P, c, cx), <<EnumE, EnumPlain>>)>>)
 (***************************************************************************)
 (* C06, parameters: ONE service whose request message has a URL-carried    *)
 (* field for every (kind, cardinality, annotation) combination the rules   *)
